@@ -263,6 +263,8 @@ func TestRun(t *testing.T) {
 	collect()
 	blockPastEnd(rec, vr.Scale(36, 360))
 	collect()
+	cancelDuringContinuation(rec, vr.Scale(400, 4000))
+	collect()
 	rel, reuse, checked, poisoned := pool.VerifTrackerStats()
 	rec.Count("tracker_releases_observed", rel)
 	rec.Count("tracker_reuses_of_released_objects", reuse)
